@@ -63,6 +63,11 @@ func validateJSONPatches(patches []byte) error {
 			return fmt.Errorf("%s: invalid path", patch.JSONPatch)
 		}
 
+		// the JSON patch library ignores whatever precedes the first '/', so "x/publicKey" would address the public keys
+		if path != "" && !strings.HasPrefix(path, "/") {
+			return fmt.Errorf("%s: path is not a JSON pointer", patch.JSONPatch)
+		}
+
 		if strings.HasPrefix(path, "/"+document.ServiceProperty) {
 			return fmt.Errorf("%s: cannot modify services", patch.JSONPatch)
 		}
@@ -86,12 +91,20 @@ func validateMoveFrom(opMsg, fromMsg *json.RawMessage) error {
 	}
 
 	var op, from string
-	if err := json.Unmarshal(*opMsg, &op); err != nil || op != "move" {
+	if err := json.Unmarshal(*opMsg, &op); err != nil {
 		return nil
 	}
 
 	if err := json.Unmarshal(*fromMsg, &from); err != nil {
 		return fmt.Errorf("%s: invalid from", patch.JSONPatch)
+	}
+
+	if from != "" && !strings.HasPrefix(from, "/") {
+		return fmt.Errorf("%s: from is not a JSON pointer", patch.JSONPatch)
+	}
+
+	if op != "move" {
+		return nil
 	}
 
 	if strings.HasPrefix(from, "/"+document.ServiceProperty) {
